@@ -28,6 +28,7 @@ def one(seed_dir):
                 fired.extend(rules)
             elif r.returncode == 2:
                 fired.append(f"{p}:ANALYSIS-ERROR")
+                sys.stderr.write(f"[{sid}] {p}: " + "\n".join(l for l in (r.stdout + r.stderr).splitlines() if "ANALYSIS-ERROR" in l or "Error" in l)[:600] + "\n")
         return sid, fired, None
     finally:
         shutil.rmtree(td, ignore_errors=True)
@@ -46,6 +47,7 @@ def main():
             else:
                 meta["detected_by"] = [f for f in fired if not f.endswith("ANALYSIS-ERROR")]
                 errs = [f for f in fired if f.endswith("ANALYSIS-ERROR")]
+                meta.pop("detection_note", None)
                 if errs:
                     meta["detection_note"] = "checks that stop with ANALYSIS-ERROR on this change: " + ", ".join(errs)
             json.dump(meta, open(mp, "w"), indent=1)
